@@ -460,3 +460,28 @@ Proof.
     symmetry. eapply Forall2_len2; eauto. }
   rewrite Hz. apply (zoom_assembly g o zsizes pre Sss (length outs) sched Hg Hlen ltac:(lia) HK). exact Ht.
 Qed.
+
+(* ---------------------------------------------------------------- the levels' outer staging buffers
+   Model/PipelineZoom.v appends [zs_store] to the file in the assembly step.  That is C12's delivery theorem
+   for the two consumer programs write_zoom_vals runs on a level's OUTER buffer, whatever the schedule of the
+   buffer's two sides and however the level's bytes arrive as write() calls (directly from the inner write
+   tasks, as one migration of staged bytes, or as the copy made by the level's splice task):
+     level 0   buf.switch(file) before anything is written; .. ; drop(writer); file = buf.await_real_file()
+     level z>0 drop(writer); buf.expect_closed_write(&mut file)
+   [d0] = the file at the switch / at expect_closed_write. *)
+From BT Require Model.TempBuf Proofs.TempBufInv Proofs.TempBufThms.
+
+Theorem zoom_outer_contract : forall (expect : bool) (d0 : bytes) (ws : list bytes) sched,
+  let prog := if expect then [TempBuf.CExpect] else [TempBuf.CSwitch; TempBuf.CAwait] in
+  let b := TempBuf.run d0 sched (TempBuf.init (map TempBuf.PWrite ws) prog) in
+  TempBuf.panicked b = false /\
+  (TempBuf.terminal b = true -> TempBuf.c_dest b = Some (d0 ++ concat ws)).
+Proof.
+  intros expect d0 ws sched prog b.
+  assert (Hl : TempBuf.legal false prog = true) by (destruct expect; reflexivity).
+  assert (Hc : TempBuf.consumes prog = true) by (destruct expect; reflexivity).
+  split.
+  - apply TempBufThms.tempbuf_no_panic. exact Hl.
+  - intros Ht. destruct (TempBufThms.tempbuf_delivery d0 (map TempBuf.PWrite ws) prog sched Hl) as [_ H].
+    rewrite <- TempBufThms.written_writes. apply (H Hc Ht).
+Qed.
